@@ -35,9 +35,18 @@ type staticObj struct {
 	ref  uint64
 	T    types.Type
 	val  Val
+	pos  token.Pos
+	axioms []string
+}
+
+type staticMap struct {
+	mt   *types.Map
+	vals []string
+	pres string
 }
 
 type globalTables struct {
+	staticMaps map[uint64]*staticMap
 	info    map[*ssa.Global]*globalInfo
 	statics []*staticObj // objects created by &T{...} in global initialisers
 	staticAxioms map[string][]string // heap name -> axioms on the base heap
@@ -390,7 +399,12 @@ func (ie *initEval) eval(x ast.Expr, t types.Type) []string {
 				}
 				pres = sto(pres, key, "true")
 			}
-			return append(vals, pres)
+			id := uint64(0x300000 + len(ie.w.gt.staticMaps))
+			if ie.w.gt.staticMaps == nil {
+				ie.w.gt.staticMaps = map[uint64]*staticMap{}
+			}
+			ie.w.gt.staticMaps[id] = &staticMap{mt: u, vals: vals, pres: pres}
+			return []string{bvLit(64, id)}
 		}
 		panic("unsupported composite literal type " + t.String())
 	case *ast.UnaryExpr:
@@ -436,7 +450,7 @@ func (ie *initEval) evalElem(x ast.Expr, et types.Type) []string {
 func (ie *initEval) staticObject(cl *ast.CompositeLit, t types.Type) string {
 	leaves := ie.eval(cl, t)
 	ref := uint64(staticRefBase + len(ie.w.gt.statics))
-	so := &staticObj{ref: ref, T: t, val: Val{T: t, L: leaves}}
+	so := &staticObj{ref: ref, T: t, val: Val{T: t, L: leaves}, pos: cl.Pos()}
 	ie.w.gt.statics = append(ie.w.gt.statics, so)
 	sk := structKey(t)
 	for k, l := range layoutOf(t).Leaves {
@@ -444,7 +458,9 @@ func (ie *initEval) staticObject(cl *ast.CompositeLit, t types.Type) string {
 			panic("static object with embedded array")
 		}
 		hn := objHeapName(sk, l.Path)
-		ie.w.gt.staticAxioms[hn] = append(ie.w.gt.staticAxioms[hn], fmt.Sprintf("(assert (= (select %s %s) %s))", smtName(hn), bvLit(64, ref), leaves[k]))
+		ax := fmt.Sprintf("(assert (= (select %s %s) %s))", smtName(hn), bvLit(64, ref), leaves[k])
+		ie.w.gt.staticAxioms[hn] = append(ie.w.gt.staticAxioms[hn], ax)
+		so.axioms = append(so.axioms, ax)
 	}
 	return bvLit(64, ref)
 }
@@ -586,10 +602,46 @@ func (vc *VC) loadGlobalVar(st *State, gv *types.Var) Val {
 
 // globalMapTable: lookups in immutable map-typed globals.
 func (vc *VC) globalMapTable(m Val) (func(Val) Val, bool) {
-	if len(m.L) == 0 || !strings.HasPrefix(m.L[0], "!gmap:") {
+	var id uint64
+	var w int
+	if len(m.L) != 1 {
 		return nil, false
 	}
-	return nil, false
+	if _, err := fmt.Sscanf(m.L[0], "(_ bv%d %d)", &id, &w); err != nil {
+		return nil, false
+	}
+	sm, ok := vc.w.gt.staticMaps[id]
+	if !ok {
+		return nil, false
+	}
+	ks, kf := mapKeySort(sm.mt)
+	// name the table arrays once per VC
+	base := fmt.Sprintf("SM!%d", id)
+	lay := layoutOf(sm.mt.Elem())
+	var syms []string
+	for k, l := range lay.Leaves {
+		n := smtName(fmt.Sprintf("%s!%d", base, k))
+		if !vc.declared[n] {
+			vc.declare(n, arrSort(ks, l.Sort))
+			vc.prelude = append(vc.prelude, fmt.Sprintf("(assert (= %s %s))", n, sm.vals[k]))
+		}
+		syms = append(syms, n)
+	}
+	pn := smtName(base + "!present")
+	if !vc.declared[pn] {
+		vc.declare(pn, arrSort(ks, sBool))
+		vc.prelude = append(vc.prelude, fmt.Sprintf("(assert (= %s %s))", pn, sm.pres))
+	}
+	return func(k Val) Val {
+		key := kf(k)
+		out := Val{T: sm.mt.Elem()}
+		pres := sel(pn, key)
+		for i, l := range lay.Leaves {
+			out.L = append(out.L, ite(pres, sel(syms[i], key), zeroOfSort(l.Sort)))
+		}
+		out.L = append(out.L, pres)
+		return out
+	}, true
 }
 
 // globalSort: sort of a G!/Z! heap not yet seen in this VC.
@@ -629,7 +681,7 @@ func (vc *VC) staticAxiomsFor(name string) {
 	if len(ax) == 0 {
 		return
 	}
-	vc.prelude = append(vc.prelude, ax...)
+	vc.statics = append(vc.statics, ax...)
 }
 
 var _ = constant.MakeBool
